@@ -10,7 +10,7 @@ def classify(case_line):
 CFG = dict(
     imports=["From Verif.Common Require Import Packet PolicyRef Ipt.", "From Verif.C08 Require Import Model Spec."],
     checker="check_case",
-    n=dict(quick=600, thorough=12000),
+    n=dict(quick=480, thorough=12000),
     shard=60,
     rule="structured proto.Rules (protocol by name/number, 0-4 CIDRs per field with rare other-family and catch-all entries, "
          "0-40 port ranges per field, 0-3 named-port sets, IP sets, IP+port sets, ICMP type/code, all negations, every action, "
@@ -33,6 +33,26 @@ CFG = dict(
 
 def run(ctx):
     return vlib.standard_flow(ctx, CFG)
+
+def replay(ctx, path):
+    """Re-evaluate one stored case (rule, configuration, the real renderer's parsed rules, packets) with the
+    model and the oracle inside Coq.  The stored case carries the implementation's own output, so the verdict
+    does not depend on the tree; to see the current tree's output for the same rule run ./check C08."""
+    import json
+    d = json.load(open(path))
+    c = d.get("case") or d.get("first_case")
+    if not c:
+        print(json.dumps(d, indent=1)[:4000]); return 0
+    ok, log = vlib.coq_build(vlib.prop_targets("Common") + vlib.prop_targets("C08"))
+    failing, _ = vlib.coq_eval_cases(ctx, CFG["imports"], CFG["checker"], [c["coq"]])
+    s = c.get("sample", {})
+    print("rule    :", s.get("rule")); print("flavour :", s.get("flavor"), "ipv%s" % s.get("ipver"))
+    for t in s.get("rendered", []): print("   ", t)
+    if not failing:
+        print("model agrees with the stored implementation output; oracle accepts it"); return 0
+    for (_, agree, okk) in failing:
+        print("model == implementation:", agree, "| specification oracle accepts implementation output:", okk)
+    return 1
 
 MANIFEST = dict(
     category="proof",
